@@ -80,9 +80,10 @@ class GMol(object):
         return comps
 
 
-def atom_text(a, rng, tag=None, variants=True):
-    """SMILES text of an atom; random among equivalent bracket spellings."""
-    sym = a.element.lower() if a.aromatic else a.element
+def atom_text(a, rng, tag=None, variants=True, upper=False):
+    """SMILES text of an atom; random among equivalent bracket spellings.  upper: aromatic atoms in upper case (the
+    aromatic bonds are then all written ':')."""
+    sym = a.element.lower() if (a.aromatic and not upper) else a.element
     bare_ok = (a.element in ("B", "C", "N", "O", "P", "S")) if a.aromatic else (a.element in ORGANIC)
     if a.hcount is None and a.isotope is None and a.charge == 0 and tag is None and bare_ok:
         return sym
@@ -118,7 +119,8 @@ BOND_TEXT = {1: "", 2: "=", 3: "#", 1.5: ""}
 
 
 def spell(mol, rng, label_mode=None, explicit_single=0.05, variants=True,
-          ring_sym_side=None, mix_labels=False, roots=None, vrng=None, digits_after_branch=0.0, spanning="dfs"):
+          ring_sym_side=None, mix_labels=False, roots=None, vrng=None, digits_after_branch=0.0, spanning="dfs",
+          upper_colon=False):
     """Return (smiles, order, tags, marks): order[k] = gmol index of the k-th
     written atom; tags {gidx: '@'|'@@'}; marks {(gsrc,gdst): char written at
     src's side}."""
@@ -162,9 +164,11 @@ def spell(mol, rng, label_mode=None, explicit_single=0.05, variants=True,
     def plain_bond_text(i, j):
         o = mol.bonds[(min(i, j), max(i, j))]
         if o == 1.5:
+            if upper_colon:
+                return ":"          # Daylight's other spelling of an aromatic system: upper-case atoms, every bond ':'
             return ":" if (variants and vrng.random() < 0.03) else ""
         if o == 1:
-            if mol.atoms[i].aromatic and mol.atoms[j].aromatic:
+            if mol.atoms[i].aromatic and mol.atoms[j].aromatic and not upper_colon:
                 return "-"
             return "-" if rng.random() < explicit_single else ""
         return BOND_TEXT[o]
@@ -255,7 +259,7 @@ def spell(mol, rng, label_mode=None, explicit_single=0.05, variants=True,
             if a.chiral:
                 tag = rng.choice(["@", "@@"])
                 tags[v] = tag
-            text.append(atom_text(a, vrng, tag, variants))
+            text.append(atom_text(a, vrng, tag, variants, upper=upper_colon))
 
         def write_bond_symbol(i, j, ring=False, closing=False):
             key = (min(i, j), max(i, j))
